@@ -756,6 +756,9 @@ int main(void)
 #if defined(VIA_PARSE_FP)
 	/* the step is entered the way applications enter it, through the real cfg_parse_fp() (LEVEL 0 only) */
 	rc = cfg_parse_fp(ctx, (FILE *)&root) == CFG_PARSE_ERROR ? STATE_ERROR : STATE_EOF;
+#elif defined(FORCE_OPT)
+	/* the scan of a declared default value string: cfg_init_defaults() passes the option it belongs to */
+	rc = cfg_parse_internal(ctx, LEVEL, -1, O);
 #else
 	rc = cfg_parse_internal(ctx, LEVEL, -1, NULL);
 #endif
